@@ -72,7 +72,7 @@ def plain_templates():
     t.append([101004, 31031])
     t.append([102002, 201130, 12001, 201000])                        # bracket opened and closed inside the loop
     t.append([201129, 102002, 12001, 2001, 201000, 12001])            # bracket around the loop
-    t.append([104002, 1001, 102002, 12001, 101002, 2001])             # depth 3
+    t.append([105002, 1001, 103002, 12001, 101002, 2001])             # depth 3: every level counts what it contains
     # sequences
     for s in [301001, 301011, 301012, 301021, 301023, 301004, 301022]:
         t.append([s])
